@@ -231,7 +231,7 @@ Qed.
 
 (* ------------------------------------------------------------------ the image the writer produces *)
 
-Record Layout (kvs : list kv) (img : image) : Prop := {
+Record Layout (kvs : list (bytes * bytes)) (img : image) : Prop := {
   lay_recs : irecs img = recs_from header_size kvs;
   lay_ntabs : length (itabs img) = 256%nat;
   lay_chain : chain (header_size + data_size kvs) (itabs img);
